@@ -18,13 +18,28 @@ V = os.path.dirname(os.path.dirname(os.path.abspath(__file__)))
 
 
 def main():
+    if sys.argv[1] == "--drop-lanes":
+        import glob
+        for wt in glob.glob("/tmp/seedlane-*"):
+            subprocess.run(["git", "-C", "/repo", "worktree", "remove", "--force", wt], capture_output=True)
+            shutil.rmtree(os.path.join(V, "work", "alt", hashlib.sha1(os.path.realpath(wt).encode()).hexdigest()[:10]), ignore_errors=True)
+        return 0
     sd = os.path.abspath(sys.argv[1])
     meta_p = os.path.join(sd, "meta.json")
     meta = json.load(open(meta_p)) if os.path.exists(meta_p) else {}
     checks = sys.argv[2:] or [meta.get("property")]
-    wt = "/tmp/seedrun-%s" % os.path.basename(sd)
-    subprocess.run(["git", "-C", "/repo", "worktree", "remove", "--force", wt], capture_output=True)
-    subprocess.run(["git", "-C", "/repo", "worktree", "add", "--detach", wt, "HEAD"], check=True, capture_output=True)
+    # SEED_LANE=n: a persistent scratch worktree /tmp/seedlane-n whose private harness build (work/alt/<hash>) is kept
+    # between seeds, so that only the crates touched by the patch are rebuilt (cargo goes by mtime: the worktree is
+    # reset with `git checkout`, not re-created).  Remove lanes at the end with `lib/seedtest.py --drop-lanes`.
+    lane = os.environ.get("SEED_LANE")
+    wt = "/tmp/seedlane-%s" % lane if lane else "/tmp/seedrun-%s" % os.path.basename(sd)
+    if lane and os.path.isdir(wt):
+        subprocess.run(["git", "-C", wt, "checkout", "--", "."], check=True, capture_output=True)
+        subprocess.run(["git", "-C", wt, "clean", "-fdq", "-e", "target"], check=True, capture_output=True)
+        subprocess.run(["git", "-C", wt, "checkout", "--detach", subprocess.run(["git", "-C", "/repo", "rev-parse", "HEAD"], capture_output=True, text=True).stdout.strip()], check=True, capture_output=True)
+    else:
+        subprocess.run(["git", "-C", "/repo", "worktree", "remove", "--force", wt], capture_output=True)
+        subprocess.run(["git", "-C", "/repo", "worktree", "add", "--detach", wt, "HEAD"], check=True, capture_output=True)
     try:
         r = subprocess.run(["git", "-C", wt, "apply", "--3way", os.path.join(sd, "patch.diff")], capture_output=True, text=True)
         if r.returncode != 0:
@@ -45,9 +60,15 @@ def main():
         meta.setdefault("checks", {}).update(res)
         json.dump(meta, open(meta_p, "w"), indent=1)
     finally:
-        subprocess.run(["git", "-C", "/repo", "worktree", "remove", "--force", wt], capture_output=True)
         alt = os.path.join(V, "work", "alt", hashlib.sha1(os.path.realpath(wt).encode()).hexdigest()[:10])
-        shutil.rmtree(alt, ignore_errors=True)
+        if lane:
+            subprocess.run(["git", "-C", wt, "checkout", "--", "."], capture_output=True)
+            subprocess.run(["git", "-C", wt, "clean", "-fdq", "-e", "target"], capture_output=True)
+            for x in ("w", "evidence", "replays"):
+                shutil.rmtree(os.path.join(alt, x), ignore_errors=True)
+        else:
+            subprocess.run(["git", "-C", "/repo", "worktree", "remove", "--force", wt], capture_output=True)
+            shutil.rmtree(alt, ignore_errors=True)
     return 0
 
 
